@@ -27,44 +27,13 @@ import (
 	"verifharness/vlib"
 )
 
-// sigCountRefresh: a reconcile that starts from Ready and finds changed workload counts only
-// refreshes them in the status and ends the round; the state stays Ready for one more round
-// although the workload no longer satisfies the batch.
-const sigCountRefresh = "c11-ready-survives-count-refresh"
-
-// sigBGDepRetry: blue-green Deployment Finalize hands an empty object to its wait check when the
-// Deployment was already restored by an earlier attempt, so the second attempt reports Completed
-// whatever the pods look like.
-const sigBGDepRetry = "c11-completed-unfinished-deployment-bluegreen-retry"
-
-// sigDepPartBack: partition-style Deployment UpgradeBatch compares the current and the desired
-// partition by scaling both against 10,000,000, so an integer partition always counts as smaller
-// than any percentage: when the plan value of the batch being upgraded is a percentage and the
-// Deployment carries an integer partition, the partition is overwritten even if that lowers the
-// number of updated pods (plan [5, "10%"] on 10 pods: 5 -> 1).
-const sigDepPartBack = "c01-knob-moved-back-deployment-partition"
-
-// sigBGDepWait: blue-green Deployment Finalize accepts readyReplicas == updatedReplicas plus
-// available within maxUnavailable as "all pods updated and ready"; that also holds while
-// (unready) old-revision pods still exist.
-const sigBGDepWait = "c11-completed-unfinished-deployment-bluegreen"
-
-// sigBGCloneSetWait: blue-green CloneSet Finalize waits only for readyReplicas ==
-// updatedReadyReplicas ("no old pod is ready"), which also holds while updated pods are unready
-// or old pods still exist unready: Completed is reported although not every pod is updated and
-// ready.
-const sigBGCloneSetWait = "c11-completed-unfinished-cloneset-bluegreen"
-
-// sigBGStillControlled: blue-green Finalize returns success without touching the workload when
-// the BatchRelease is deleted while batchPartition is still set ("continuous release is not
-// supported yet"): Completed is reported, the finalizer removed, and the workload keeps the
-// control-info annotation and the blue-green settings.
-const sigBGStillControlled = "c11-completed-still-controlled-bluegreen"
-
 // Action is one executed rule with all its drawn parameters (absolute values), so that a case
 // is a pure function of (Scenario, []Action).
 type Action struct {
 	Op string `json:"op"`
+	// reconcile: steering decisions of the generated run (input class of a known open finding)
+	Skipped bool `json:"skipped,omitempty"` // the reconcile was not executed
+	Exempt  bool `json:"exempt,omitempty"`  // executed with the Ready oracles switched off
 	// setStatus
 	Updated      int  `json:"updated,omitempty"`
 	UpdatedReady int  `json:"updatedReady,omitempty"`
@@ -231,7 +200,7 @@ func (m *machine) apply(a Action) {
 	}
 	switch a.Op {
 	case "reconcile":
-		m.reconcile()
+		m.reconcile(a)
 	case "setStatus":
 		m.setStatus(a)
 	case "scale":
@@ -468,7 +437,57 @@ func (m *machine) podChurn(a Action) {
 // ---------------------------------------------------------------------------------------
 // One real Reconcile, with the oracles that look at a whole reconcile.
 
-func (m *machine) reconcile() {
+// knownClass says whether a reconcile started now would fall into the input class of a known open
+// finding: skip != "" means the reconcile must not be executed, exempt != "" means it is executed
+// with the Ready oracles switched off. Only the generator asks (steering); the answer is recorded
+// in the Action, so a replay re-executes exactly what the generated run did.
+func (m *machine) knownClass() (skip, exempt string) {
+	pre := m.getRelease()
+	if pre == nil {
+		return "", ""
+	}
+	plan := pre.Spec.ReleasePlan
+	// a reconcile that will call Finalize under the wait policy
+	waiting := plan.BatchPartition == nil && plan.FinalizingPolicy == v1beta1.WaitResumeFinalizingPolicyType && pre.Status.Phase == v1beta1.RolloutPhaseFinalizing
+	w := m.getWorkload()
+	switch {
+	// sigBGDepRetry: a further Finalize attempt on an already restored, unfinished blue-green
+	// Deployment under WaitResume.
+	case knownOpen[sigBGDepRetry] && m.sc.Plane == pDepBG && waiting &&
+		w != nil && w.GetAnnotations()[v1beta1.OriginalDeploymentStrategyAnnotation] == "" && m.unfinishedWhy() != "":
+		return sigBGDepRetry, ""
+	// sigBGDepWait: a first Finalize attempt (WaitResume) on a blue-green Deployment whose status
+	// has readyReplicas == updatedReplicas while old-revision pods are still counted.
+	case knownOpen[sigBGDepWait] && m.sc.Plane == pDepBG && waiting && w != nil && w.GetAnnotations()[v1beta1.OriginalDeploymentStrategyAnnotation] != "":
+		if d := w.(*apps.Deployment); d.Status.ReadyReplicas == d.Status.UpdatedReplicas && d.Status.UpdatedReplicas != d.Status.Replicas {
+			return sigBGDepWait, ""
+		}
+	// sigBGCloneSetWait: a Finalize attempt (WaitResume) on a blue-green CloneSet whose status
+	// passes "readyReplicas == updatedReadyReplicas" although the workload is not finished.
+	case knownOpen[sigBGCloneSetWait] && m.sc.Plane == pCSBG && waiting && w != nil:
+		if cs := w.(*kruisev1alpha1.CloneSet); cs.Status.ReadyReplicas == cs.Status.UpdatedReadyReplicas && m.unfinishedWhy() != "" {
+			return sigBGCloneSetWait, ""
+		}
+	}
+	if knownOpen[sigCountRefresh] && m.isCountRefresh(pre, m.observe()) {
+		return "", sigCountRefresh
+	}
+	return "", ""
+}
+
+// isCountRefresh: input class of sigCountRefresh - the reconcile starts in Ready while the
+// workload's updated / updated-ready counts differ from the ones recorded in the BatchRelease
+// status (refreshing them ends the round before readiness is re-evaluated).
+func (m *machine) isCountRefresh(pre *v1beta1.BatchRelease, o obs) bool {
+	return pre != nil && o.exists && o.fresh && pre.DeletionTimestamp == nil &&
+		pre.Status.Phase == v1beta1.RolloutPhaseProgressing && pre.Status.CanaryStatus.CurrentBatchState == v1beta1.ReadyBatchState &&
+		(int(pre.Status.CanaryStatus.UpdatedReplicas) != o.updated || int(pre.Status.CanaryStatus.UpdatedReadyReplicas) != o.updatedReady)
+}
+
+func (m *machine) reconcile(a Action) {
+	if a.Skipped {
+		return
+	}
 	pre := m.getRelease()
 	var preObs obs
 	if pre != nil {
@@ -484,62 +503,8 @@ func (m *machine) reconcile() {
 	if w := m.getWorkload(); w != nil && m.sc.Plane == pDepBG && w.GetAnnotations()[v1beta1.OriginalDeploymentStrategyAnnotation] == "" {
 		m.restoredAtStart = true
 	}
-	// Input class of the known finding sigBGDepRetry: a further Finalize attempt on an already
-	// restored blue-green Deployment that is not finished, under WaitResume. Not executed.
-	if knownOpen[sigBGDepRetry] && m.sc.Plane == pDepBG && pre != nil && pre.Status.Phase == v1beta1.RolloutPhaseFinalizing &&
-		pre.Spec.ReleasePlan.BatchPartition == nil && pre.Spec.ReleasePlan.FinalizingPolicy == v1beta1.WaitResumeFinalizingPolicyType {
-		if w := m.getWorkload(); w != nil && w.GetAnnotations()[v1beta1.OriginalDeploymentStrategyAnnotation] == "" && m.unfinishedWhy() != "" {
-			vlib.Excluded(m.chk, sigBGDepRetry)
-			return
-		}
-	}
-	// Input class of the known finding sigDepPartBack: an UpgradeBatch on a partition-style
-	// Deployment that carries an integer partition while the batch value is a percentage that
-	// means fewer pods. Not executed.
-	if knownOpen[sigDepPartBack] && m.sc.Plane == pDepPart && pre != nil && pre.DeletionTimestamp == nil && pre.Status.Phase == v1beta1.RolloutPhaseProgressing &&
-		(pre.Status.CanaryStatus.CurrentBatchState == v1beta1.UpgradingBatchState || pre.Status.CanaryStatus.CurrentBatchState == "") &&
-		pre.Spec.ReleasePlan.BatchPartition != nil && int(pre.Status.CanaryStatus.CurrentBatch) < len(pre.Spec.ReleasePlan.Batches) {
-		if d, ok := m.getWorkload().(*apps.Deployment); ok && d != nil && d.Annotations[v1alpha1.DeploymentStrategyAnnotation] != "" {
-			var st v1alpha1.DeploymentStrategy
-			_ = json.Unmarshal([]byte(d.Annotations[v1alpha1.DeploymentStrategyAnnotation]), &st)
-			v := pre.Spec.ReleasePlan.Batches[pre.Status.CanaryStatus.CurrentBatch].CanaryReplicas
-			if st.Partition.Type == intstr.Int && isPercent(v) && desiredFor(pDepPart, v, int(*d.Spec.Replicas)) < m.exposureOf(d, nil) {
-				vlib.Excluded(m.chk, sigDepPartBack)
-				return
-			}
-		}
-	}
-	// Input class of the known finding sigBGDepWait: a first Finalize attempt (WaitResume) on a
-	// blue-green Deployment whose status has readyReplicas == updatedReplicas while old-revision
-	// pods are still counted. Not executed.
-	if knownOpen[sigBGDepWait] && m.sc.Plane == pDepBG && !m.restoredAtStart && pre != nil && pre.Status.Phase != v1beta1.RolloutPhaseCompleted &&
-		pre.Spec.ReleasePlan.BatchPartition == nil && pre.Spec.ReleasePlan.FinalizingPolicy == v1beta1.WaitResumeFinalizingPolicyType {
-		if d, ok := m.getWorkload().(*apps.Deployment); ok && d != nil && d.Status.ReadyReplicas == d.Status.UpdatedReplicas && d.Status.UpdatedReplicas != d.Status.Replicas {
-			vlib.Excluded(m.chk, sigBGDepWait)
-			return
-		}
-	}
-	// Input class of the known finding sigBGCloneSetWait: a Finalize attempt (WaitResume) on a
-	// blue-green CloneSet whose status passes "readyReplicas == updatedReadyReplicas" although
-	// the workload is not finished. Not executed.
-	if knownOpen[sigBGCloneSetWait] && m.sc.Plane == pCSBG && pre != nil && (pre.Status.Phase == v1beta1.RolloutPhaseFinalizing || pre.Spec.ReleasePlan.BatchPartition == nil) &&
-		pre.Status.Phase != v1beta1.RolloutPhaseCompleted && pre.Spec.ReleasePlan.BatchPartition == nil && pre.Spec.ReleasePlan.FinalizingPolicy == v1beta1.WaitResumeFinalizingPolicyType {
-		if cs, ok := m.getWorkload().(*kruisev1alpha1.CloneSet); ok && cs != nil && cs.Status.ReadyReplicas == cs.Status.UpdatedReadyReplicas && m.unfinishedWhy() != "" {
-			vlib.Excluded(m.chk, sigBGCloneSetWait)
-			return
-		}
-	}
-	// Input class of the known finding sigCountRefresh: the reconcile starts in Ready while the
-	// workload's updated / updated-ready counts differ from the ones recorded in the
-	// BatchRelease status (refreshing them ends the round before readiness is re-evaluated).
-	countRefresh := pre != nil && preObs.exists && preObs.fresh && pre.DeletionTimestamp == nil &&
-		pre.Status.Phase == v1beta1.RolloutPhaseProgressing && pre.Status.CanaryStatus.CurrentBatchState == v1beta1.ReadyBatchState &&
-		(int(pre.Status.CanaryStatus.UpdatedReplicas) != preObs.updated || int(pre.Status.CanaryStatus.UpdatedReadyReplicas) != preObs.updatedReady)
-	m.exemptReady, m.countRefresh = false, countRefresh
-	if countRefresh && knownOpen[sigCountRefresh] {
-		m.exemptReady = true
-		vlib.Excluded(m.chk, sigCountRefresh)
-	}
+	countRefresh := m.isCountRefresh(pre, preObs)
+	m.exemptReady, m.countRefresh = a.Exempt, countRefresh
 	defer func() { m.exemptReady, m.countRefresh = false, false }()
 	// the informer has delivered everything that happened so far
 	expectations.ResourceExpectations = expectations.NewResourceExpectations()
